@@ -1,4 +1,5 @@
 import Py4hwV.Lib.Leaf
+import Py4hwV.Gen.C09
 /-
   C09 — functional models of the sequential library blocks of py4hw
   (py4hw/logic/storage.py, py4hw/logic/arithmetic.py (counters), py4hw/logic/clock.py).
@@ -157,12 +158,10 @@ structure StepIn where
   step : Nat
 deriving Repr
 
-/-- `StepUpCounter`; `inc=None` is not constructible (NameError `one`), see `stepUpLegal` -/
-def stepUpLegal (hasInc : Bool) : Bool := hasInc
-
-def stepUpCounter (w : Nat) (hasReset : Bool) : Machine RegSt StepIn Nat :=
+/-- `StepUpCounter`; `inc=None` (since repo commit 083dde2): a 1-bit constant-1 wire `one` is the increment -/
+def stepUpCounter (w : Nat) (hasReset hasInc : Bool) : Machine RegSt StepIn Nat :=
   { init := regInit w 0,
-    step := fun s i => counterClk w (if hasReset then i.reset else const w 0) i.inc i.step s,
+    step := fun s i => counterClk w (if hasReset then i.reset else const w 0) (if hasInc then i.inc else const 1 1) i.step s,
     out := fun s _ => s.q }
 
 /-- ModuloCounter: `mod` is the Python int given to the constructor; carryout is a 1-bit wire -/
@@ -324,12 +323,9 @@ def syncMem (aw dw : Nat) : Machine MemSt MemIn Nat :=
     step := fun s i => memClk dw i s,
     out := fun s _ => s.readdata }
 
-/-! ### DualPortSynchronousMemory (storage.py:306-352).  `clock()` as written reads `self.writea`, an attribute that
-    does not exist (the constructor stores `self.write_a`): every first edge raises AttributeError. -/
-inductive Err where
-  | attributeError
-deriving Repr, DecidableEq
-
+/-! ### DualPortSynchronousMemory (storage.py:306-355): generated `clock` (Gen/C09.lean, target harness/targets.d/C09.json)
+    + the masks of the two `readdata_x.prepare`.  (Before repo commit 942d9ca `clock()` read `self.writea`, an attribute
+    that does not exist: every first edge raised AttributeError; see notes/C09.md.) -/
 structure DpIn where
   a : MemIn
   b : MemIn
@@ -341,20 +337,16 @@ structure DpSt where
   rdb : Nat
 deriving Repr, DecidableEq, Inhabited
 
-/-- the code as it exists: `readdata_a.prepare(..)` then `self.writea` → AttributeError, for every input -/
-def dualPortClk (_dw : Nat) (_i : DpIn) (_s : DpSt) : Except Err DpSt := .error .attributeError
+def dualPortClk (dw : Nat) (i : DpIn) (s : DpSt) : DpSt :=
+  let o := Gen.DualPortSynchronousMemory.step ⟨⟩ { data := s.data }
+             { read_address_a := (i.a.ra : Int), write_address_a := (i.a.wa : Int), read_address_b := (i.b.ra : Int),
+               write_address_b := (i.b.wa : Int), write_a := (i.a.we : Int), writedata_a := (i.a.wd : Int),
+               write_b := (i.b.we : Int), writedata_b := (i.b.wd : Int) } ⟨⟩
+  ⟨o.1.data, landed dw o.2.readdata_a, landed dw o.2.readdata_b⟩
 
-/-- the proposed minimal repair (attribute names + both reads before the writes; port b writes last) -/
-def dualPortFixedClk (dw : Nat) (i : DpIn) (s : DpSt) : DpSt :=
-  let ra := Py.lget s.data i.a.ra
-  let rb := Py.lget s.data i.b.ra
-  let d1 := if i.a.we ≠ 0 then Py.lset s.data i.a.wa i.a.wd else s.data
-  let d2 := if i.b.we ≠ 0 then Py.lset d1 i.b.wa i.b.wd else d1
-  ⟨d2, Bits.put dw ra, Bits.put dw rb⟩
-
-def dualPortFixed (aw dw : Nat) : Machine DpSt DpIn (Nat × Nat) :=
+def dualPort (aw dw : Nat) : Machine DpSt DpIn (Nat × Nat) :=
   { init := ⟨List.replicate (2 ^ aw) 0, 0, 0⟩,
-    step := fun s i => dualPortFixedClk dw i s,
+    step := fun s i => dualPortClk dw i s,
     out := fun s _ => (s.rda, s.rdb) }
 
 /-! ### AutoReset (clock.py:97-114): generated `clock`; a wire that is not prepared keeps its value -/
@@ -398,9 +390,9 @@ def counter (c : CounterCfg) : Machine Nat CounterIn Nat :=
     step := fun q i => counterNext c.w (if c.hasReset then i.reset else 0) (if c.hasInc then i.inc else 1) 1 q,
     out := fun q _ => q }
 
-def stepUpCounter (w : Nat) (hasReset : Bool) : Machine Nat StepIn Nat :=
+def stepUpCounter (w : Nat) (hasReset hasInc : Bool) : Machine Nat StepIn Nat :=
   { init := 0,
-    step := fun q i => counterNext w (if hasReset then i.reset else 0) i.inc i.step q,
+    step := fun q i => counterNext w (if hasReset then i.reset else 0) (if hasInc then i.inc else 1) i.step q,
     out := fun q _ => q }
 
 /-- modulo counter: counts 0 … n-1 cyclically, carry while the count is n-1 -/
